@@ -25,7 +25,7 @@ CHECKS = {
         "technique": "exhaustive enumeration of (A) all 65 derivative constructors on an element lattice against 40-digit numerical differentiation of an independent element map, (B) the lattice system x integrator setting x order x varied particle x parameter (pair) x test-particle flag x horizon, each variational run compared with Richardson-extrapolated finite differences of shadow runs, (C) rescaling cases, (D) MEGNO runs",
         "text": "A: 12 first-order and 53 second-order constructors (every name pair of {m,a,e,inc,Omega,omega,f} and of {m,a,lambda,h,k,ix,iy}) x 4 element points (incl. near-circular/near-planar and retrograde) x 2 (G, masses) x 2 primary states; agreement to 1e-9 of the largest component, mass component. "
                 "B: systems V3 (two planets), V3h (masses 1e-2), V4t (N_active=3 plus a test particle) x {IAS15, BS, WHFast correctors 0/3/17 x safe/unsafe/keep_unsynchronized, LEAPFROG} first order x every particle x {x,y,z,vx,vy,vz,m, a,e,inc,Omega,omega,f,m(elements fixed), lambda,h,k,ix,iy} and test-particle variations; {IAS15, BS} second order x every pair within the Cartesian, classical and Pal sets plus cross-particle pairs; 92 steps (thorough: also 800 steps): 3.1k variational runs, 4-8 shadow runs each; BS second order against IAS15's variational particles. "
-                "C: variation started at 9e99 vs unit variation for IAS15, BS, LEAPFROG and 9 WHFast settings (exp(lrescale) x variation must be 9e99 x the unit variation; lrescale plausible). D: MEGNO within 0.15 (thorough 0.05) of 2 and Lyapunov estimate -> 0 over 300 (3000) orbits for IAS15 and 9 WHFast settings.",
+                "C: variation started at 9e99 vs unit variation for IAS15, BS, LEAPFROG and 9 WHFast settings (exp(lrescale) x variation must be 9e99 x the unit variation; lrescale plausible). D: MEGNO within 0.15 (thorough 0.05) of 2 and Lyapunov estimate -> 0 over 300 (3000) orbits for IAS15 and 9 WHFast settings. Variations carried through move_to_com() (mass, Cartesian and element parameters, orders 1 and 2) against shadow runs each moved to its own centre of mass.",
         "note": "WHFast: Jacobi coordinates and default kernel only (everything else is refused by the library), no test-particle variations (refused), mass variations are a recorded finding. Initial conditions of the shadow runs come from an independent element map, not from REBOUND.",
     },
     "C04": {
@@ -34,13 +34,13 @@ CHECKS = {
         "text": "A: all 374 documented integrator settings x {forward, backward} on S3 (thorough: also S4G and the 9-body S9), the whole system displaced and boosted so the centre of mass moves, 2000 steps (thorough 1e4) with synchronisation every 250 (1000) steps: total mass exact, momentum and uniform centre-of-mass motion to rounding (1024 u sqrt(n)), angular momentum to rounding for the fixed-step schemes and hybrid schemes (4096 u sqrt(n)) and to the accuracy class for IAS15 / BS / JANUS (grid) / barycentric WHFast, energy within the class bound, no growth between the two halves for the Wisdom-Holman family; diagnostics vs longdouble sums. "
                 "B: 13.6k (thorough 183k) distinct histories, invariants measured on a synchronised copy after every operation (class of the least accurate integrator used). "
                 "C: star + colliding pair + companion inside the switch-over radius + 1 (thorough 2) distant planets: all 24 (120) insertion orders x {MERCURIUS safe/unsafe, TRACE, IAS15, BS, WHFast, LEAPFROG} x 2 (4) merge times: exactly one merger, mass exact, momentum and centre of mass to rounding, energy + tracked offset within class, and the same energy error and final state whatever the insertion order. "
-                "D: energy(), angular_momentum(), com(), com(first,last) vs their definitions in 40-digit arithmetic on N 1..6 x 3 mass patterns x variational particles present x softening x offset 1e6.",
+                "D: energy(), angular_momentum(), com(), com(first,last) vs their definitions in 40-digit arithmetic on N 1..6 x 3 mass patterns x variational particles present x softening x offset 1e6. E: close encounters without a collision on a moving system (planets at a=1.0 and 1.03 plus one or two more): every insertion order x {MERCURIUS safe/unsafe, TRACE x 3 peri modes, IAS15}, 2000 (thorough 1e4) steps: momentum and uniform centre-of-mass motion to rounding, angular momentum and energy within class (TRACE rejects and repeats steps here).",
         "note": "Switching integrators follows the documented discipline (really synchronize, select, reset sim.gravity, set dt); targets of a switch run in safe mode. Energy across mergers is bounded loosely (the tracked offset ignores the pair's potential with third bodies; the statement claims mass and momentum only). Processed EOS splittings and LEAPFROG are judged by their bound, not by the no-growth test (their error oscillates with periods longer than the run).",
     },
     "C01": {
         "engine": "gridmc", "category": "exploration",
         "technique": "exhaustive enumeration of the documented integrator option lattice x test-particle setting x direction x system x three step sizes, each run compared with an independent longdouble Gragg-Bulirsch-Stoer reference; order and accuracy-class oracles, differential relations, user ODEs",
-        "text": "All 374 documented integrator settings (WHFast 4 kernels x 6 correctors x corrector2 x Jacobi, barycentric x 6 correctors, DH, WHDS, each x safe/unsafe/keep_unsynchronized; 18 SABA types x 3 safety modes; 9x9 EOS splittings + 27 unsafe ones; IAS15 4 adaptive modes x epsilon; LEAPFROG; JANUS 5 orders x 2 grids; BS 2 tolerances; MERCURIUS 4 switching functions x r_crit x safe mode; TRACE 3 peri modes x 2 switching conditions) "
+        "text": "All 374 documented integrator settings (WHFast 4 kernels x 6 correctors x corrector2 x Jacobi, barycentric x 6 correctors, DH, WHDS, each x safe/unsafe/keep_unsynchronized; 18 SABA types x 3 safety modes; 9x9 EOS splittings + 27 unsafe ones; IAS15 4 adaptive modes x epsilon; LEAPFROG; JANUS 5 orders x 4 grids (two with scale_pos != scale_vel); BS 2 tolerances; MERCURIUS 4 switching functions x r_crit x safe mode; TRACE 3 peri modes x 2 switching conditions) "
                 "x {all active, massless test particle (type 0), massive test particle of type 1} x {forward, backward} (quick: 4 of the 6 combinations on system S3; thorough: all 6 on S3, S3t, S4G) x h = P/20, P/40, P/80 over two inner periods. "
                 "Oracles: error against the reference shrinks at the advertised classical order p (E(h)/E(h/4) >= 4^(p-1/2) or E(h/2)/E(h/4) >= 2^(p-1/2); pairs at the rounding floor unused), accuracy class for IAS15 (1e-11) and BS (3e3 x tolerance), end time, finiteness; relations: symplectic corrector >= 3 cuts the error below 0.3x, "
                 "kernel + high-order corrector below 0.5x the default kernel, forward/backward errors within 100x. User ODEs (harmonic oscillator, explicitly time-dependent right-hand side, quadrature coupled to a particle coordinate) advanced with BS, IAS15, WHFast, MERCURIUS against closed forms / the reference.",
@@ -82,8 +82,8 @@ CHECKS = {
         "technique": "exhaustive enumeration of the configuration lattice (N, N_active, testparticle_type, gravity_ignore_terms, softening, G, mass pattern, ghost boxes, root layouts, routine) crossed with a small position alphabet, each point compared with the statement's pairwise sum evaluated in 80-bit arithmetic",
         "text": "54k configurations (quick): routine {BASIC, COMPENSATED, TREE at theta=0} x N 0..5 (thorough 9) x N_active {-1,0..N} x testparticle_type x gravity_ignore_terms {0,1,2} x softening x G x 4 mass patterns (incl. zero masses among actives and 1:1e-6:1e-12) x 2 position sets "
                 "x ghost boxes {none,(1,0,0),(1,1,0),(2,2,1)} x root layouts; MERCURIUS mode0+mode1 for every encounter subset x switching function and TRACE interaction+Kepler for every encounter subset x every 0/1 pattern of current_Ks must add up to the full heliocentric force. "
-                "Reference: the softened pairwise sum with the source set defined by the statement (actives always, test particles on actives iff type 1, never on each other, ignore-terms, images), numpy.longdouble; tolerance (16+2N+4sqrt(N x images))*u*sum|terms|; all-active: sum m_i a_i = 0.",
-        "note": "The continuum of positions/masses is reduced to the stated alphabets. Not covered: JACOBI routine (exercised through the WHFast kernels under C01), finite opening angle error bound, OPENMP/MPI/QUADRUPOLE builds.",
+                "Reference: the softened pairwise sum with the source set defined by the statement (actives always, test particles on actives iff type 1, never on each other, ignore-terms, images), numpy.longdouble; tolerance (16+2N+4sqrt(N x images))*u*sum|terms|; all-active: sum m_i a_i = 0. JACOBI routine (WHFast kernels, SABA): N 2..6 (9) x G x 3 mass patterns (incl. massless bodies) x 2 position sets: the Jacobi transform of the routine's accelerations equals the Jacobi transform of the full pairwise sum plus the Kepler term G eta_i x'_i/|x'_i|^3.",
+        "note": "The continuum of positions/masses is reduced to the stated alphabets. Not covered: the error bound of the tree code at finite opening angle, OPENMP/MPI/QUADRUPOLE builds.",
     },
     "C12": {
         "engine": "gridmc", "category": "exploration",
